@@ -44,6 +44,7 @@ class Opts(object):
         self.boolops = False       # and/or/not/conditional expressions with side-effecting operands
         self.comprehension = False
         self.global_ = False       # `global G` + assignments to G
+        self.nested_global_reads = None   # names (module globals) read only inside nested defs (C11)
         self.append = True         # with mutation: also emit m.append(...) (an effect no state variable tracks)
         self.only = None           # optional set of construct names: only these (plus assign) are generated
         self.fresh_for_targets = False   # every for loop gets its own target name (i1, i2, ...) never assigned elsewhere
@@ -138,6 +139,8 @@ class Gen(object):
             choices += ['raise']
         if o.nested_def and depth < 2:
             choices += ['def']
+            if o.nested_global_reads:
+                choices += ['klass']
         if o.delete and defined:
             choices += ['del']
         if o.mutation:
@@ -229,10 +232,24 @@ class Gen(object):
                 self.emit(ind, 'with CM(%d):' % self.key())
                 d1 = self.block(ind + 1, defined, depth + 1, in_loop, ihf)
             return d1, True
+        if c == 'klass':
+            # a local class whose body binds X and whose method reads X: in Python the method sees the module
+            # global X (class-body bindings are invisible from methods)
+            nm = 'K%d' % self.key()
+            x = r.choice(o.nested_global_reads)
+            self.emit(ind, 'class %s(object):' % nm)
+            self.emit(ind + 1, '%s = %d' % (x, self.key()))
+            self.emit(ind + 1, 'def m(self, p):')
+            self.emit(ind + 2, 'return T(%d, p, %s)' % (self.key(), x))
+            self.emit(ind, '%s = %s().m(%s)' % (r.choice(self.vars), nm, self.texpr(defined)))
+            return defined, True
         if c == 'def':
             name = 'g%d' % self.key()
             self.emit(ind, 'def %s(p):' % name)
-            self.emit(ind + 1, 'return %s' % self.texpr(defined | {'p'}))
+            if o.nested_global_reads:
+                self.emit(ind + 1, 'return T(%d, p, %s)' % (self.key(), r.choice(o.nested_global_reads)))
+            else:
+                self.emit(ind + 1, 'return %s' % self.texpr(defined | {'p'}))
             self.emit(ind, '%s = %s(%s)' % (r.choice(self.vars), name, self.texpr(defined)))
             return defined, True
         if c == 'try':
